@@ -20,6 +20,7 @@
 package main
 
 import (
+	"container/heap"
 	"context"
 	"fmt"
 	"io"
@@ -64,6 +65,13 @@ func (t tableWeights) Weight(s b6.Segment) float64 {
 	h := mix(t.salt ^ mix(s.Feature.FeatureID().Value*1000003+first*1009+last))
 	return float64(h % t.mod)
 }
+
+// wayWeights: one explicit integer weight per way (every way of a fan network has two nodes, so a way is
+// one edge, same weight in both directions); usability as above.
+type wayWeights struct{ w map[uint64]float64 }
+
+func (t wayWeights) IsUseable(s b6.Segment) bool { return graph.CarWeights{}.IsUseable(s) }
+func (t wayWeights) Weight(s b6.Segment) float64 { return t.w[s.Feature.FeatureID().Value] }
 
 // ---- deterministic Traverse --------------------------------------------------------------------
 
@@ -301,7 +309,9 @@ func b01(b bool) string {
 type plan struct {
 	kind       string
 	net        network
-	weights    tableWeights
+	weights    graph.Weights
+	mustOrigin int  // node that is always searched from (0 = none)
+	wideLimits bool // limits that let everything be queued (fan networks)
 	orderSalt  uint64
 	allOrigins bool
 	selfTo     bool // always include ExpandSearchTo towards the origin itself
@@ -363,7 +373,16 @@ func runWorld(c *hx.Ctx, p plan) {
 		for _, i := range perm[:4] {
 			origins = append(origins, pts[i])
 		}
+		if p.mustOrigin != 0 {
+			origins[0] = ingest.FromOSMNodeID(osm.NodeID(p.mustOrigin))
+		}
 	}
+	deepDecrease := false
+	defer func() {
+		if deepDecrease {
+			c.Note("case:has-decrease-key-of-2+-levels")
+		}
+	}()
 	for _, o := range origins {
 		bf := bellmanFord(es, ptName(o), len(pts))
 		var ds []float64
@@ -378,6 +397,9 @@ func runWorld(c *hx.Ctx, p plan) {
 			tight = far
 		}
 		limits := []float64{tight, tight + 1, []float64{0, 1, far + 5, 1e6, far + 1, far + 1}[r.Intn(6)]}
+		if p.wideLimits {
+			limits = []float64{1e6, 5000, tight + 1}
+		}
 		zu := zeroUsable(w, p.weights, o)
 		if !zu {
 			c.Note("origin:not-connected")
@@ -392,6 +414,14 @@ func runWorld(c *hx.Ctx, p plan) {
 				return renderSearch(s)
 			})
 			c.Op(fmt.Sprintf("search %s %s zu=%s bf=%s", ptName(o), num(max), b01(zu), renderDist(bf)), ans)
+			if zu {
+				q, lv := heapStats(es, ptName(o), max)
+				c.Note("heap:max-queue:" + bucketQ(q))
+				c.Note(fmt.Sprintf("heap:max-decrease-levels:%d", lv))
+				if lv >= 2 {
+					deepDecrease = true
+				}
+			}
 			reported := strings.Count(ans, ":") / 2
 			c.Note(fmt.Sprintf("search:reported:%s", bucket(reported)))
 			cut := 0
@@ -439,6 +469,100 @@ func runWorld(c *hx.Ctx, p plan) {
 			}
 		}
 	}
+}
+
+func bucketQ(n int) string {
+	switch {
+	case n <= 3:
+		return "1-3"
+	case n <= 7:
+		return "4-7"
+	case n <= 15:
+		return "8-15"
+	default:
+		return "16+"
+	}
+}
+
+// ---- queue statistics ---------------------------------------------------------------------------
+//
+// heapStats replays the search on the dumped adjacency with Go's container/heap exactly as graph.go uses
+// it (same Less/Swap/Push/Pop, same Traverse order) and reports the largest queue and the largest number
+// of heap levels a decrease-key (heap.Fix) moved an entry up. Only used for the input histogram.
+
+type simEntry struct {
+	pt      string
+	dist    float64
+	visited bool
+	index   int
+}
+type simHeap []*simEntry
+
+func (h simHeap) Len() int           { return len(h) }
+func (h simHeap) Less(i, j int) bool { return h[i].dist < h[j].dist }
+func (h simHeap) Swap(i, j int)      { h[i], h[j] = h[j], h[i]; h[i].index = i; h[j].index = j }
+func (h *simHeap) Push(x any)        { e := x.(*simEntry); e.index = len(*h); *h = append(*h, e) }
+func (h *simHeap) Pop() any {
+	old := *h
+	e := old[len(old)-1]
+	e.index = -1
+	*h = old[:len(old)-1]
+	return e
+}
+
+func level(i int) int {
+	l := 0
+	for i > 0 {
+		i = (i - 1) / 2
+		l++
+	}
+	return l
+}
+
+func heapStats(es []edge, origin string, max float64) (maxQueue int, maxLevels int) {
+	adj := map[string][]edge{}
+	for _, e := range es {
+		adj[e.from] = append(adj[e.from], e)
+	}
+	by := map[string]*simEntry{}
+	h := &simHeap{}
+	o := &simEntry{pt: origin}
+	by[origin] = o
+	*h = append(*h, o)
+	for h.Len() > 0 {
+		if h.Len() > maxQueue {
+			maxQueue = h.Len()
+		}
+		r := heap.Pop(h).(*simEntry)
+		r.visited = true
+		for _, e := range adj[r.pt] {
+			if n, ok := by[e.last]; ok && n.visited {
+				continue
+			}
+			if !e.usable || !(r.dist+e.weight < max) {
+				continue
+			}
+			d := r.dist + e.weight
+			if n, ok := by[e.last]; ok {
+				if n.dist > d {
+					before := level(n.index)
+					n.dist = d
+					heap.Fix(h, n.index)
+					if lv := before - level(n.index); lv > maxLevels {
+						maxLevels = lv
+					}
+				}
+			} else {
+				n := &simEntry{pt: e.last, dist: d}
+				by[e.last] = n
+				heap.Push(h, n)
+			}
+			if h.Len() > maxQueue {
+				maxQueue = h.Len()
+			}
+		}
+	}
+	return
 }
 
 func bucket(n int) string {
@@ -519,8 +643,59 @@ func genNetwork(c *hx.Ctx) network {
 	return net
 }
 
+// genFan: a network built to stress the queue. Origin 1 has heavy direct ways to k leaves (all queued at once,
+// 3..6 heap levels); a gateway (node 2) one cheap step from the origin has cheap ways to many leaves, so popping it
+// decreases entries that sit deep in the heap to below the head (decrease-keys that climb 2..5 levels); cheap
+// leaf-to-leaf ways make the improved points lie on the best routes of the entries they overtake, so a queue that
+// is out of order finalises wrong distances.
+func genFan(c *hx.Ctx) {
+	r := c.Rand
+	k := 8 + r.Intn(31) // leaves
+	n := k + 2
+	net := network{nodes: gridNodes(n)}
+	weights := wayWeights{w: map[uint64]float64{}}
+	res := [][2]string{{"highway", "residential"}}
+	id := 0
+	add := func(a, b int, w float64) {
+		id++
+		net.ways = append(net.ways, way(id, res, a, b))
+		weights.w[uint64(id)] = w
+	}
+	add(1, 2, float64(1+r.Intn(5)))
+	for l := 3; l <= n; l++ {
+		add(1, l, float64(100+r.Intn(900)))
+	}
+	gates := 1 + r.Intn(2)
+	for gi := 0; gi < gates; gi++ {
+		g := 2
+		if gi == 1 { // a second gateway behind one of the leaves
+			g = 3 + r.Intn(k)
+		}
+		for l := 3; l <= n; l++ {
+			if l != g && r.Chance(2, 5) {
+				add(g, l, float64(1+r.Intn(60)))
+			}
+		}
+	}
+	for j := 0; j < k+r.Intn(k); j++ { // cheap leaf-to-leaf ways
+		a, b := 3+r.Intn(k), 3+r.Intn(k)
+		if a != b {
+			add(a, b, float64(r.Intn(12)))
+		}
+	}
+	c.Note("class:fan")
+	c.Note(fmt.Sprintf("fan:leaves:%s", bucketQ(k)))
+	runWorld(c, plan{kind: "basic", net: net, weights: weights, orderSalt: r.Uint64(), allOrigins: false,
+		mustOrigin: 1, wideLimits: true})
+}
+
 func genCase(c *hx.Ctx) {
 	r := c.Rand
+	if r.Chance(1, 4) {
+		genFan(c)
+		return
+	}
+	c.Note("class:street")
 	net := genNetwork(c)
 	mods := []uint64{1, 2, 3, 4, 8, 20, 100}
 	kind := "basic"
@@ -534,7 +709,7 @@ func genCase(c *hx.Ctx) {
 		orderSalt:  r.Uint64(),
 		allOrigins: true,
 	}
-	c.Note(fmt.Sprintf("weights:mod-%d", p.weights.mod))
+	c.Note(fmt.Sprintf("weights:mod-%d", p.weights.(tableWeights).mod))
 	runWorld(c, p)
 }
 
@@ -591,7 +766,9 @@ func main() {
 		Rule: "networks of 2..12 OSM nodes and 1..7 ways (random/consecutive node runs, closed loops, revisited nodes, " +
 			"highway kinds incl. unusable ones, oneway=yes, tagged mid-way points) built as basic or compact worlds; " +
 			"integer weights from a per-case table (mod 1..100, symmetric or directional); every point as origin, three " +
-			"limits each (one equal to a true distance), two ExpandSearchTo targets; non-trivial = some search reports " +
+			"limits each (one equal to a true distance), two ExpandSearchTo targets; 1 case in 4 is a fan network (origin with heavy " +
+			"ways to 8..38 leaves, cheap gateways and leaf-to-leaf ways: 8..40 queued entries, decrease-keys climbing 2+ heap " +
+			"levels; queue size and climbed levels are measured by a container/heap replay); non-trivial = some search reports " +
 			">= 4 points with at least one multi-step route; distinct = by hash of the op text",
 		Quick:    450,
 		Thorough: 8000,
